@@ -356,6 +356,11 @@ func c19RunPolicy(b core.Batch, r *core.Recorder) {
 	rig.QuietLogs()
 	o := rig.StartOrigin(func(w http.ResponseWriter, q *http.Request, rec *rig.OriginReq) {
 		rec.SetNote(q.URL.Path)
+		if strings.HasPrefix(q.URL.Path, "/r416") && q.Header.Get("Range") != "" {
+			w.Header().Set("Content-Range", "bytes */200")
+			w.WriteHeader(416)
+			return
+		}
 		rig.ServeBody(w, 4, 1, 200, map[string]string{"Cache-Control": "no-store"})
 	})
 	defer o.Close()
@@ -366,8 +371,10 @@ func c19RunPolicy(b core.Batch, r *core.Recorder) {
 		r.Eval(1)
 		ignore := rng.IntN(2) == 0
 		retry := rng.IntN(2) == 0
+		retry416 := rng.IntN(2) == 0
 		p.Cfg.Proxy.CachePolicy.IgnoreCacheControl.Overwrite(ignore)
 		p.Cfg.Proxy.RetryOnInvalidRange.Overwrite(retry)
+		p.Cfg.Proxy.RetryOnRange416.Overwrite(retry416)
 		id := fmt.Sprintf("p%d", i)
 		cs := map[string]any{"id": id, "ignore_cache_control": ignore, "retry_on_invalid_range": retry}
 		// ignore switch: a no-store answer is reused iff directives are ignored
@@ -385,6 +392,12 @@ func c19RunPolicy(b core.Batch, r *core.Recorder) {
 		r.Nontrivial("policy", ignore, retry, i)
 		if r2.Err == nil && contacted == ignore {
 			r.Violation("C19", "C19:policy-switch-not-followed:ignore_cache_control", fmt.Sprintf("ignore_cache_control was set to %v before the request, yet the no-store answer was reused=%v", ignore, !contacted), cs, nil)
+		}
+		// retry_on_range_416: the origin refuses the Range with 416; the proxy retries without Range only when told to
+		r5 := rig.Do(p, rig.Plain, o.Addr, rig.Req{Target: fmt.Sprintf("/r416-%d", i), Header: [][2]string{{"Range", "bytes=5-9"}}})
+		if r5.Err == nil && ((retry416 && r5.Status != 200) || (!retry416 && r5.Status != 416)) {
+			cs["retry_on_range_416"] = retry416
+			r.Violation("C19", "C19:policy-switch-not-followed:retry_on_range_416", fmt.Sprintf("retry_on_range_416 was set to %v before the request; the origin's 416 was answered to the client with %d", retry416, r5.Status), cs, nil)
 		}
 		// retry switch: an unsatisfiable range on a stored entry gives 416, or the full 200 when retrying
 		if ignore {
@@ -433,7 +446,7 @@ func init() {
 		Level: "exploration",
 		Rule: "set model: every sequence up to <depth> over {subscribe (<=4 listeners), unsubscribe_i (also repeated), fire} on ConfigProp.OnChange plus seeded random sequences of 8-30 ops with up to 8 listeners; after every fire exactly the model's listener set must have been called once each, no panic. " +
 			"latest value: bursts of 2-10 back-to-back changes of max_cache_size / memory_budget_percent / cleanup_interval on live memory and file caches and of the log level on the real logger, under GOMAXPROCS 1, 2, 16; at observed quiescence the component state must equal the last value. " +
-			"shutdown: three caches on one config, every prefix of every destruction order, then a change must reach exactly the survivors. policy: ignore_cache_control / retry_on_invalid_range toggled between requests through the real proxy. Non-trivial = distinct sequence with a fire and >= 2 listeners / burst / order / toggle.",
+			"shutdown: three caches on one config, every prefix of every destruction order, then a change must reach exactly the survivors. policy: ignore_cache_control / retry_on_invalid_range / retry_on_range_416 toggled between requests through the real proxy. Non-trivial = distinct sequence with a fire and >= 2 listeners / burst / order / toggle.",
 		Assumptions: []string{"quiescence is observed (co-listeners counted, janitor.interval.applied hook), bursts where it is not reached within 10 s are not judged", "settings are changed with ConfigProp.Overwrite, the same entry point command-line overrides use"},
 		Plan:        c19Plan,
 		Run:         c19Run,
